@@ -19,7 +19,8 @@ type Multi struct {
 // NewLoader returns a new multi loader. The order of the loaders passed as parameters
 // will define the order in which templates are loaded.
 func NewLoader(loaders ...jet.Loader) *Multi {
-	return &Multi{loaders: loaders}
+	// the list is the Multi's own: AddLoaders appends to it in place, which must not reach the caller's slice
+	return &Multi{loaders: append([]jet.Loader(nil), loaders...)}
 }
 
 // AddLoaders adds the passed loaders to the list of loaders.
